@@ -249,3 +249,63 @@ impl io::Write for VecWrite {
         Ok(())
     }
 }
+
+// ---------------------------------------------------------------------------
+// sinks
+// ---------------------------------------------------------------------------
+
+/// A sink that accepts at most `max` bytes per `write` / `poll_write` call (the contract of
+/// `io::Write::write` allows any short count), and answers `Pending` once before every
+/// `pending_every`-th asynchronous write. Everything accepted is kept in `out`.
+pub struct ShortSink {
+    pub out: Vec<u8>,
+    pub max: usize,
+    pub calls: u64,
+    pub short: u64,
+    pub pending_every: u64,
+    armed: bool,
+}
+impl ShortSink {
+    pub fn new(max: usize) -> Self {
+        ShortSink { out: Vec::new(), max: max.max(1), calls: 0, short: 0, pending_every: 0, armed: true }
+    }
+    pub fn with_pending(max: usize, every: u64) -> Self {
+        let mut s = Self::new(max);
+        s.pending_every = every;
+        s
+    }
+    fn accept(&mut self, buf: &[u8]) -> usize {
+        self.calls += 1;
+        let n = buf.len().min(self.max);
+        if n < buf.len() {
+            self.short += 1;
+        }
+        self.out.extend_from_slice(&buf[..n]);
+        n
+    }
+}
+impl io::Write for ShortSink {
+    fn write(&mut self, buf: &[u8]) -> io::Result<usize> {
+        Ok(self.accept(buf))
+    }
+    fn flush(&mut self) -> io::Result<()> {
+        Ok(())
+    }
+}
+impl tokio::io::AsyncWrite for ShortSink {
+    fn poll_write(mut self: Pin<&mut Self>, cx: &mut Context<'_>, buf: &[u8]) -> Poll<io::Result<usize>> {
+        if self.pending_every > 0 && self.armed && (self.calls + 1) % self.pending_every == 0 {
+            self.armed = false;
+            cx.waker().wake_by_ref();
+            return Poll::Pending;
+        }
+        self.armed = true;
+        Poll::Ready(Ok(self.accept(buf)))
+    }
+    fn poll_flush(self: Pin<&mut Self>, _cx: &mut Context<'_>) -> Poll<io::Result<()>> {
+        Poll::Ready(Ok(()))
+    }
+    fn poll_shutdown(self: Pin<&mut Self>, _cx: &mut Context<'_>) -> Poll<io::Result<()>> {
+        Poll::Ready(Ok(()))
+    }
+}
